@@ -92,6 +92,31 @@ void HARNESS(void)
   CANARY();
 }
 
+#elif defined(SPEC_helper_formula)
+/* the real combination helpers against their defining formulas (weighted mean; Chan et al. 1979 pairwise variance update),
+ * bit for bit, for all counts >= 1 and all means / variance sums.  Decided by cvc5's floating-point theory in seconds (the
+ * SAT back end does not finish the multiplier/divider miters even for constant counts; z3 4.8 does not either).  This pins
+ * the formula down: which operand is weighted by which count, the order of operations. */
+static double spec_cm(double m1, uint64_t c1, double m2, uint64_t c2) { return (m1 * (double)c1 + m2 * (double)c2) / (double)(c1 + c2); }
+static double spec_cv(double m1, double v1, uint64_t c1, double m2, double v2, uint64_t c2)
+{ double delta = m1 - m2; return v1 + v2 + (delta * delta) * (double)(c1 * c2) / (double)(c1 + c2); }
+double c_helper_formula(Agg* a, Agg* b)
+__CPROVER_requires(agg_ok(a) && agg_ok(b) && a->A_count >= 1 && b->A_count >= 1)
+__CPROVER_assigns()
+__CPROVER_ensures(same_(__CPROVER_return_value, WHICH_CV ? spec_cv(a->A_mean, a->A_nvar, a->A_count, b->A_mean, b->A_nvar, b->A_count)
+                                                          : spec_cm(a->A_mean, a->A_count, b->A_mean, b->A_count)))
+{ return PUREFN(a, b); }
+void HARNESS(void)
+{
+  INPUT(Agg, in_a); INPUT(Agg, in_b);
+#ifdef FIX_C1
+  in_a.A_count = FIX_C1; in_b.A_count = FIX_C2;
+#endif
+  __CPROVER_assume(agg_ok(&in_a) && agg_ok(&in_b) && in_a.A_count >= 1 && in_b.A_count >= 1);
+  c_helper_formula(&in_a, &in_b);
+  CANARY();
+}
+
 #elif defined(SPEC_dep)
 /* the helper's result depends only on the fields the uninterpreted abstraction keys on: two runs on states that agree
  * on those fields (and differ arbitrarily elsewhere) return the same value (self-composition) */
